@@ -69,3 +69,15 @@ Print Assumptions C10_outcome_timeout.
 Print Assumptions C10_bytes_kept_ssh.
 Print Assumptions C10_bytes_kept_telnet.
 Print Assumptions C10_bounds_in_every_run.
+
+(* ---- "in every failure case the transport is closed" ---- *)
+From Scrapli Require Import GeneratedSkel OpenSkel.
+
+(* Channel.Open and the Open of the generic, network and NETCONF drivers, as the source says NOW
+   (GeneratedSkel.open_skeleton, re-extracted on every run): once the layer below has been opened,
+   every return that carries an error is covered by a close of the connection -- a deferred one
+   registered before it, or a direct call since the previous return (OpenSkel.open_closes_ok) *)
+Theorem C10_open_closes_on_failure : open_all_ok = true.
+Proof. exact open_functions_close_on_failure. Qed.
+
+Print Assumptions C10_open_closes_on_failure.
